@@ -15,6 +15,7 @@ def parseOp : String → Option Op
   | "tell" => some .tell | "tellv" => some .tellValue | "ask" => some .ask | "kill" => some .kill
   | "poison" => some .poison | "watch" => some .watch | "unwatch" => some .unwatch | "watch-twin" => some .watchTwin | "unwatch-twin" => some .unwatchTwin | "ping" => some .ping
   | "pipe-ok" => some .pipeOk | "pipe-fail" => some .pipeFail
+  | "tell-respawned" => some .tellRespawned
   | "kill-busy" => some .killBusy | "poison-busy" => some .poisonBusy | "watch-stopping" => some .watchStopping
   | "pipe-err" => some .pipeFail      -- the recipient answers with a plain Go error: a failure result, like a timeout
   | _ => none
